@@ -897,6 +897,15 @@ class OwnAnalyzer:
             if other is not None:
                 isnull = (e['op'] == '==') == truth
                 return self.refine_null(other, isnull, st)
+            # a block obtained from the allocator is never a local array / local object of this function
+            for (x, y) in ((e['l'], e['r']), (e['r'], e['l'])):
+                key, v = self.value_for_refine(x, st)
+                y0 = strip_casts(y)
+                if y0.get('k') == 'un' and y0['op'] == '&':
+                    y0 = strip_casts(y0['e'])
+                if v[0] == 'tok' and y0.get('k') == 'ref' and y0.get('dk') == 'local' and \
+                        (self.u.ty(y0.get('ty0', y0['ty']))['c'] in ('array', 'record') or strip_casts(y).get('k') == 'un'):
+                    return st if (e['op'] == '!=') == truth else None
             # comparison of a retflag variable with a constant
             for (x, y) in ((e['l'], e['r']), (e['r'], e['l'])):
                 key, v = self.value_for_refine(x, st)
@@ -1760,21 +1769,97 @@ def _path_vars(e):
 
 
 def _always_releases_param(u, fn):
-    """indices of the parameters that fn hands to a release function on every path to its end"""
+    """What fn certainly disposes of: [(parameter index, field or None)] such that every path to fn's end passes a release (or a
+    reallocate) of that parameter, or of that field of it, and fn never stores to the parameter / the field."""
     out = set()
     if not fn.params:
         return out
     cfg = None
-    for (c, e, _deep) in _direct_release_calls(u, fn):
+    groups = {}
+    sites = list(_direct_release_calls(u, fn))
+    for c in fn.calls():
+        cn = callee_name(c)
+        if ((cn is None and indirect_field(c) == 'reallocate') or cn == 'realloc') and c['args']:
+            sites.append((c, strip_casts(c['args'][0]), False))
+    for (c, e, _deep) in sites:
+        key = None
         if e.get('k') == 'ref' and e.get('dk') == 'param':
-            pi = [i for i, p in enumerate(fn.params) if p['d'] == e['d']]
-            if not pi or any(strip_casts(a['l']).get('d') == e['d'] for a in assignments(fn) if strip_casts(a['l']).get('k') == 'ref'):
-                continue
-            cfg = cfg or fn.cfg()
-            rn = node_containing(cfg, c)
-            if cfg.exit.id not in cfg.reachable(stop={rn.id}):
-                out.add(pi[0])
+            key = (e['d'], None)
+        elif e.get('k') == 'mem' and strip_casts(e['b']).get('k') == 'ref' and strip_casts(e['b']).get('dk') == 'param':
+            key = (strip_casts(e['b'])['d'], e['f'])
+        if key is not None:
+            groups.setdefault(key, []).append(c)
+    for (d, f), calls in groups.items():
+        pi = [i for i, p in enumerate(fn.params) if p['d'] == d]
+        if not pi:
+            continue
+        if any(strip_casts(a['l']).get('k') == 'ref' and strip_casts(a['l']).get('d') == d for a in assignments(fn)):
+            continue
+        if f is not None and any(strip_casts(a['l']).get('k') == 'mem' and strip_casts(a['l'])['f'] == f and
+                                 strip_casts(strip_casts(a['l'])['b']).get('d') == d for a in assignments(fn)):
+            continue
+        cfg = cfg or fn.cfg()
+        stops = {node_containing(cfg, c).id for c in calls}
+        if cfg.exit.id not in cfg.reachable(stop=stops) or not _feasibly_avoids(cfg, fn, stops):
+            out.add((pi[0], f))
     return out
+
+
+def _cond_key(e):
+    """(text of the tested value, negated?) with NULL/zero comparisons normalised: x == NULL, !x -> (x, True)"""
+    e = strip_casts(e)
+    neg = False
+    while e.get('k') == 'un' and e['op'] == '!':
+        e = strip_casts(e['e'])
+        neg = not neg
+    if e.get('k') == 'bin' and e['op'] in ('==', '!='):
+        for (a, b) in ((e['l'], e['r']), (e['r'], e['l'])):
+            if is_null_const(b) or const_val(b) == 0:
+                return expr_str(strip_casts(a)), (e['op'] == '==') != neg
+    return expr_str(e), neg
+
+
+def _feasibly_avoids(cfg, fn, stops):
+    """Is the end of the function reachable without passing a node of `stops`, on a path whose branch outcomes do not
+    contradict each other (same tested value, no store to it in between)?"""
+    work = [(cfg.entry.id, frozenset())]
+    seen = set()
+    steps = 0
+    while work:
+        nid, facts = work.pop()
+        if (nid, facts) in seen:
+            continue
+        seen.add((nid, facts))
+        steps += 1
+        if steps > 100000:
+            raise AnalysisBroken('DBL1: path search in %s does not finish' % fn.name)
+        if nid in stops:
+            continue
+        if nid == cfg.exit.id:
+            return True
+        node = cfg.nodes[nid]
+        fd = dict(facts)
+        changed = set()
+        for ev in node_effects(node):
+            if ev.kind in ('store', 'incdec') and ev.lhs is not None:
+                changed.add(expr_str(strip_casts(ev.lhs)))
+            if ev.kind == 'declinit':
+                changed.add(ev.lhs.get('n'))
+            if ev.kind == 'call':
+                changed.add('(')
+        for k in list(fd):
+            if any(ch == k or (ch != '(' and _mentions(k, ch)) or (ch == '(' and ('(' in k or '->' in k or '[' in k or '*' in k)) for ch in changed):
+                del fd[k]
+        for (y, label) in cfg.succ[nid]:
+            f2 = dict(fd)
+            if label is not None and label[0] in ('T', 'F') and node.kind == 'branch':
+                k, neg = _cond_key(label[1])
+                val = (label[0] == 'T') != neg
+                if k in f2 and f2[k] != val:
+                    continue
+                f2[k] = val
+            work.append((y, frozenset(f2.items())))
+    return False
 
 
 def dbl1(units, R, unit_names=('cJSON.c', 'cJSON_Utils.c')):
@@ -1795,14 +1880,21 @@ def dbl1(units, R, unit_names=('cJSON.c', 'cJSON_Utils.c')):
                     unconditional[g.name] = ps
         for fn in u.function_list:
             rels = []       # (call, target string, expression, kind)
-            for (c, e, _deep) in _release_calls(u, fn):
+            for (c, e, _deep) in _direct_release_calls(u, fn):
                 rels.append((c, e, 'release'))
             for c in fn.calls():
                 cn = callee_name(c)
                 if cn in unconditional and cn != fn.name:
-                    for pi in unconditional[cn]:
+                    # a helper counts as a release of what it disposes of on *every* one of its paths; what it releases on some
+                    # paths only is not known to be released here (and is examined inside the helper itself)
+                    for (pi, f) in unconditional[cn]:
                         if pi < len(c['args']):
-                            rels.append((c, strip_casts(c['args'][pi]), 'release'))
+                            a = strip_casts(c['args'][pi])
+                            if f is None:
+                                rels.append((c, a, 'release'))
+                            else:
+                                syn = {'k': 'mem', 'f': f, 'arrow': True, 'b': c['args'][pi], 'ty': a.get('ty'), 'id': -c['id'] - 1, 'loc': c['loc']}
+                                rels.append((c, syn, 'release'))
                 if ((cn is None and indirect_field(c) == 'reallocate') or cn == 'realloc') and c['args']:
                     rels.append((c, strip_casts(c['args'][0]), 'realloc'))
             rels = [(c, e, kind) for (c, e, kind) in rels
